@@ -55,7 +55,7 @@ def extra(res, cases, hv, driver):
     from .. import tvrun
     tvs = tvrun.run(res, PROP, cases, LEVELS_QUICK if res.tier == "quick" else LEVELS_THOROUGH, 11, False, "jit")
     res.assumptions += ["bytecode generation for the JIT (11 registers, no fusion): every generated program x level is validated against its IR for all inputs by the certified checker of theorem C02_validated_translation (translation_validation in extra)",
-                        "arithmetic instruction selection: theorem C03_form_sound (Props/C03.v) proves that machine code accepted by X86.form_ok computes the bytecode instruction's result for every operand value and preserves all other cells, slots and live registers, and C03_arith_simulates_bytecode lifts this to a simulation of the bytecode model's Add/Sub/Mul/Copy step (BC.bc_binop) under the JIT's register/slot homing of temporaries; the check runs it on the code the current build emits for every normalised Copy/Add/Sub/Mul shape (x86_forms in extra); trusted: the concrete x86 semantics of X86.v (mov/movzx/add/sub/inc/dec/imul/lea with partial-register rules), objdump, and the translator tools/x86tr.py (which also exchanges the two interchangeable scratch registers rax/rcx of a move or budget-check template consistently when the template uses rcx where the model says rax, after checking that the template has no instruction with an implicit rax/rcx operand; and accepts the callee-saved registers pushed in any order when the epilogue pops them in the reverse of that order); runtime-call templates of Inp/Out: theorems C03_input_template/C03_output_template (exact 64-bit model with stack and call oracle, X86Call.v) for every mask of live caller-saved temporaries; pointer moves with their bounds probe: theorem C03_mov_template; prologue and epilogue are matched against the expected frame code and the frame arithmetic is theorem C03_frame; what remains validated by execution only is that the pieces compose (one instruction falls through to the next) and the runtime functions themselves"]
+                        "arithmetic instruction selection: theorem C03_form_sound (Props/C03.v) proves that machine code accepted by X86.form_ok computes the bytecode instruction's result for every operand value and preserves all other cells, slots and live registers, and C03_arith_simulates_bytecode lifts this to a simulation of the bytecode model's Add/Sub/Mul/Copy step (BC.bc_binop) under the JIT's register/slot homing of temporaries; the check runs it on the code the current build emits for every normalised Copy/Add/Sub/Mul shape (x86_forms in extra); trusted: the concrete x86 semantics of X86.v (mov/movzx/add/sub/inc/dec/imul/lea with partial-register rules), objdump, and the translator tools/x86tr.py (which also exchanges the two interchangeable scratch registers rax/rcx of a move or budget-check template consistently when the template uses rcx where the model says rax, after checking that the template has no instruction with an implicit rax/rcx operand; accepts the callee-saved registers pushed in any order when the epilogue pops them in the reverse of that order; and reads the zeroing idiom `xor r, r` of an arithmetic form or of the epilogue as `mov r, 0`, the flags it writes having no reader there); runtime-call templates of Inp/Out: theorems C03_input_template/C03_output_template (exact 64-bit model with stack and call oracle, X86Call.v) for every mask of live caller-saved temporaries; pointer moves with their bounds probe: theorem C03_mov_template; prologue and epilogue are matched against the expected frame code and the frame arithmetic is theorem C03_frame; what remains validated by execution only is that the pieces compose (one instruction falls through to the next) and the runtime functions themselves"]
     return {"huge_constant_runs": len(lines), "huge_constant_disagreements": bad, "form_level": fst, "x86_forms": xst, "x86_call_templates": cst, "x86_whole_programs": pst, "translation_validation": tvs,
             "theorems": ["C02_validated_translation", "C03_form_sound", "C03_arith_simulates_bytecode", "C03_input_template", "C03_output_template", "C03_branch_template", "C03_mov_template", "C03_unsigned_probe", "C03_frame"]}
 
